@@ -3,6 +3,7 @@ package edit
 import (
 	"encoding/json"
 	"fmt"
+	"regexp"
 	"strings"
 
 	"oss.terrastruct.com/d2/d2graph"
@@ -46,6 +47,9 @@ func seedFeature(r *Rec) string {
 	}
 	return ""
 }
+
+// a chain of connections whose key carries a map block: the block is shared by every connection of the chain
+var chainWithMapRe = regexp.MustCompile(`(<-|->|--|<->)[^\n]*(<-|->|--|<->)[^\n]*\{`)
 
 func isIn(xs []*xObj, o *xObj) bool {
 	for _, x := range xs {
@@ -181,6 +185,9 @@ func c38Attr(r *Rec, pre, post *PBoard, elem, attr, origin string, bad func(stri
 		abs, ok := resolveEdge(g0, elem)
 		if !ok {
 			return eng.OK("n/a:key-names-nothing", false)
+		}
+		if attr != "label" && chainWithMapRe.MatchString(r.Pre) {
+			cls += ":diagram-has-chain-with-map"
 		}
 		if what, det := diffExisting(pre, post, "", abs); what != "" {
 			return bad(cls+":other-"+what, det)
